@@ -9,6 +9,8 @@
 package main
 
 import (
+	"bufio"
+	"context"
 	"crypto/sha1"
 	"crypto/tls"
 	"encoding/base64"
@@ -26,9 +28,14 @@ import (
 	"sort"
 	"strconv"
 	"strings"
+	"sync/atomic"
 	"time"
 
 	"golang.org/x/crypto/bcrypt"
+	grpc_proxy "github.com/mwitkow/grpc-proxy/proxy"
+	"google.golang.org/grpc"
+	"google.golang.org/grpc/credentials/insecure"
+	"google.golang.org/grpc/metadata"
 
 	"github.com/fabiolb/fabio/auth"
 	"github.com/fabiolb/fabio/config"
@@ -598,6 +605,40 @@ type sharedProxy struct {
 	redirect int
 }
 
+// hijackRecorder is a ResponseRecorder that can be hijacked (websocket path): the client side
+// of the connection is an in-memory pipe whose other end is drained.
+type hijackRecorder struct {
+	*httptest.ResponseRecorder
+	hijacked bool
+}
+
+func (h *hijackRecorder) Hijack() (net.Conn, *bufio.ReadWriter, error) {
+	c1, c2 := net.Pipe()
+	go func() { io.Copy(io.Discard, c2); c2.Close() }()
+	h.hijacked = true
+	return c1, bufio.NewReadWriter(bufio.NewReader(c1), bufio.NewWriter(c1)), nil
+}
+
+// rawCodec: gRPC messages are byte slices
+type rawCodec struct{}
+
+func (rawCodec) Marshal(v any) ([]byte, error) {
+	b, ok := v.(*[]byte)
+	if !ok {
+		return nil, fmt.Errorf("rawCodec: %T", v)
+	}
+	return *b, nil
+}
+func (rawCodec) Unmarshal(data []byte, v any) error {
+	b, ok := v.(*[]byte)
+	if !ok {
+		return fmt.Errorf("rawCodec: %T", v)
+	}
+	*b = append([]byte(nil), data...)
+	return nil
+}
+func (rawCodec) Name() string { return "proto" }
+
 type rtFunc func(*http.Request) (*http.Response, error)
 
 func (f rtFunc) RoundTrip(r *http.Request) (*http.Response, error) { return f(r) }
@@ -903,6 +944,7 @@ func main() {
 		remote   string
 		xff      []string
 		redirect int          // 0 = the route forwards, else the redirect code of the route
+		via      int          // 0 plain GET, 1 Upgrade: websocket (raw dial to a counting listener), 2 SSE
 		shared   *sharedProxy // non-nil: a step of a request history on one proxy / scheme set
 		note     string
 	}
@@ -991,13 +1033,31 @@ func main() {
 			req.Header.Set("Authorization", in.cred.header)
 		}
 		rec := httptest.NewRecorder()
+		var w http.ResponseWriter = rec
+		switch in.via {
+		case 1: // the websocket path dials the target itself: the upstream is the counting listener
+			req.Header.Set("Upgrade", "websocket")
+			req.Header.Set("Connection", "Upgrade")
+			w = &hijackRecorder{ResponseRecorder: rec}
+		case 2:
+			req.Header.Set("Accept", "text/event-stream")
+		}
 		id := run.NextID()
-		if pn, v := vh.Recover(func() { p.ServeHTTP(rec, req) }); pn {
+		if pn, v := vh.Recover(func() { p.ServeHTTP(w, req) }); pn {
 			run.Violation(id, fmt.Sprintf("ServeHTTP panicked: %v", v), in.remote)
 			return
 		}
 		if in.shared != nil {
 			hits = in.shared.hits - before
+		}
+		if in.via == 1 {
+			if hits != 0 {
+				run.Violation(id, "websocket request went through the Transport", in.remote)
+			}
+			hits = up.hits()
+			class += "+websocket"
+		} else if in.via == 2 {
+			class += "+sse"
 		}
 		xs := make([]string, len(in.xff))
 		for i, v := range in.xff {
@@ -1007,9 +1067,9 @@ func main() {
 		if redirect != 0 {
 			class += "+redirect"
 		}
-		run.Add("http/"+class, vh.App("CHttp", coqEnv(in.g.allow, in.g.deny, tb, &ref), vh.Bool(in.present), vh.N(redirect), vh.HxS(in.authName), coqSchemes(in.cred),
+		run.Add("http/"+class, vh.App("CHttp", coqEnv(in.g.allow, in.g.deny, tb, &ref), vh.Bool(in.present), vh.N(in.via), vh.N(redirect), vh.HxS(in.authName), coqSchemes(in.cred),
 			vh.HxS(in.remote), split, vh.List(xs), vh.List(semItems), vh.Bool(refAdmit), vh.N(rec.Code), vh.N(hits), vh.Bool(loc != "")),
-			map[string]interface{}{"redirect": redirect, "location": loc, "allow": in.g.allow, "deny": in.g.deny, "auth": in.authName, "cred": in.cred.note, "remote": in.remote, "xff": in.xff,
+			map[string]interface{}{"redirect": redirect, "location": loc, "via": in.via, "allow": in.g.allow, "deny": in.g.deny, "auth": in.authName, "cred": in.cred.note, "remote": in.remote, "xff": in.xff,
 				"status": rec.Code, "upstream_hits": hits, "ref_admit": refAdmit, "history": in.note})
 	}
 	genXFF := func(cands []netip.Addr, peerText string) []string {
@@ -1067,7 +1127,7 @@ func main() {
 		if r.Intn(5) < 2 {
 			redirect = redirectCodes[r.Intn(len(redirectCodes))]
 		}
-		addHTTP(class, httpIn{g: g, present: r.Intn(40) != 0, authName: authName, cred: genCred(), remote: remote, xff: genXFF(cands, peerText), redirect: redirect})
+		addHTTP(class, httpIn{g: g, present: r.Intn(40) != 0, authName: authName, cred: genCred(), remote: remote, xff: genXFF(cands, peerText), redirect: redirect, via: []int{0, 0, 0, 0, 0, 0, 0, 1, 1, 2}[r.Intn(10)]})
 	}
 	// directed witnesses of the recorded findings and of each gate branch
 	okCred := credGen{header: basicHeader(usersA[0].name, usersA[0].pw), note: "right for alice", right: map[string]bool{"mybasic": true, "other": false}}
@@ -1098,6 +1158,8 @@ func main() {
 		d.present = true
 		addHTTP("directed", d)
 		d.redirect = redirectCodes[r.Intn(len(redirectCodes))] // the same request on a redirect route
+		addHTTP("directed", d)
+		d.redirect, d.via = 0, 1 // and as a websocket upgrade
 		addHTTP("directed", d)
 	}
 
@@ -1416,6 +1478,143 @@ func main() {
 			}
 			tcpShared = nil
 		}
+	}
+
+	// ---------------- 6. the gRPC proxy ----------------
+	// The real gRPC proxy (main.go:newGrpcProxy replicated: TransparentHandler(GetGRPCDirector) +
+	// GrpcProxyInterceptor.Stream, served by proxy.ListenAndServeGRPC) in front of a real gRPC
+	// backend; the route comes out of the real addTarget with opts proto=grpc + allow/deny/auth and
+	// is installed with route.SetTable.  Callers connect from chosen loopback addresses.
+	{
+		var served int64
+		bln, err := net.Listen("tcp", "127.0.0.1:0")
+		if err != nil {
+			panic(err)
+		}
+		bsrv := grpc.NewServer(grpc.ForceServerCodec(rawCodec{}), grpc.UnknownServiceHandler(func(_ any, ss grpc.ServerStream) error {
+			var b []byte
+			if err := ss.RecvMsg(&b); err != nil {
+				return err
+			}
+			atomic.AddInt64(&served, 1)
+			return ss.SendMsg(&b)
+		}))
+		go bsrv.Serve(bln)
+		defer bsrv.Stop()
+		cfg := &config.Config{}
+		cfg.Proxy.Strategy, cfg.Proxy.Matcher = "rnd", "prefix"
+		cfg.Proxy.GRPCMaxRxMsgSize, cfg.Proxy.GRPCMaxTxMsgSize = 4<<20, 4<<20
+		cfg.Proxy.GRPCGShutdownTimeout = 100 * time.Millisecond
+		cfg.GlobCacheSize = 100
+		sh := &proxy.GrpcStatsHandler{Connect: metrics.DiscardProvider{}.NewCounter("c"), Request: metrics.DiscardProvider{}.NewHistogram("r"),
+			NoRoute: metrics.DiscardProvider{}.NewCounter("n"), Status: metrics.DiscardProvider{}.NewHistogram("s")}
+		pi := proxy.GrpcProxyInterceptor{Config: cfg, StatsHandler: sh, GlobCache: route.NewGlobCache(cfg.GlobCacheSize)}
+		opts := []grpc.ServerOption{
+			grpc.CustomCodec(grpc_proxy.Codec()),
+			grpc.UnknownServiceHandler(grpc_proxy.TransparentHandler(proxy.GetGRPCDirector(nil, cfg))),
+			grpc.StreamInterceptor(pi.Stream),
+			grpc.StatsHandler(sh),
+			grpc.MaxRecvMsgSize(cfg.Proxy.GRPCMaxRxMsgSize),
+			grpc.MaxSendMsgSize(cfg.Proxy.GRPCMaxTxMsgSize),
+		}
+		var paddr string
+		for try := 0; ; try++ {
+			ln, err := net.Listen("tcp", "127.0.0.1:0")
+			if err != nil {
+				panic(err)
+			}
+			paddr = ln.Addr().String()
+			ln.Close()
+			errc := make(chan error, 1)
+			go func() { errc <- proxy.ListenAndServeGRPC(config.Listen{Addr: paddr, Proto: "grpc"}, opts, nil) }()
+			select {
+			case err := <-errc:
+				if try > 5 {
+					panic(fmt.Sprintf("ListenAndServeGRPC: %v", err))
+				}
+				continue
+			case <-time.After(150 * time.Millisecond):
+			}
+			break
+		}
+		defer proxy.Close()
+		srcs := []string{"127.0.0.1", "127.0.0.2", "127.1.2.3"}
+		callers := map[string]*grpc.ClientConn{}
+		for _, src := range srcs {
+			src := src
+			cc, err := grpc.NewClient("passthrough:///"+paddr, grpc.WithTransportCredentials(insecure.NewCredentials()),
+				grpc.WithDefaultCallOptions(grpc.ForceCodec(rawCodec{})),
+				grpc.WithContextDialer(func(ctx context.Context, addr string) (net.Conn, error) {
+					d := net.Dialer{LocalAddr: &net.TCPAddr{IP: net.ParseIP(src)}}
+					return d.DialContext(ctx, "tcp", addr)
+				}))
+			if err != nil {
+				panic(err)
+			}
+			callers[src] = cc
+			defer cc.Close()
+		}
+		burl := &url.URL{Scheme: "grpc", Host: bln.Addr().String()}
+		rulesG := []ruleGen{
+			{class: "no-rule"},
+			{allow: "ip:10.0.0.0/8", class: "allow"}, {allow: "ip:127.0.0.0/8", class: "allow"}, {allow: "ip:127.0.0.2,ip:fe80::/10", class: "allow"},
+			{deny: "ip:127.0.0.1", class: "deny"}, {deny: "ip:127.0.0.0/30", class: "deny"}, {deny: "ip:10.0.0.0/8", class: "deny"},
+			{allow: "ip:10.0.0.0/33", class: "allow-bad-item"}, {allow: "ip:127.0.0.0/8", deny: "ip:127.0.0.1", class: "allow+deny"},
+		}
+		authsG := []string{"", "", "mybasic", "nosuch"}
+		nG := run.Scale(40, 300)
+		for i := 0; i < nG; i++ {
+			g := rulesG[i%len(rulesG)]
+			if i >= 2*len(rulesG) && r.Intn(2) == 0 {
+				g = genRule(r)
+			}
+			if !ascii(g.allow, g.deny) {
+				run.Exclude("non-ASCII rule text")
+				continue
+			}
+			authName := authsG[r.Intn(len(authsG))]
+			cred := noCred
+			if r.Intn(2) == 0 {
+				cred = okCred
+			}
+			src := srcs[r.Intn(len(srcs))]
+			gopts := map[string]string{"proto": "grpc"}
+			if g.allow != "" {
+				gopts["allow"] = g.allow
+			}
+			if g.deny != "" {
+				gopts["deny"] = g.deny
+			}
+			if authName != "" {
+				gopts["auth"] = authName
+			}
+			tbl, _ := route.VerifTable("svc", burl, gopts)
+			if tbl == nil {
+				panic("VerifTable (grpc)")
+			}
+			route.SetTable(tbl)
+			tb := newTables(run)
+			tb.askRule(g.allow)
+			tb.askRule(g.deny)
+			ref := refParse(g.allow, g.deny)
+			peer := netip.MustParseAddr(src)
+			before := atomic.LoadInt64(&served)
+			ctx, cancel := context.WithTimeout(context.Background(), 10*time.Second)
+			if cred.header != "" {
+				ctx = metadata.AppendToOutgoingContext(ctx, "authorization", cred.header)
+			}
+			// a well-formed protobuf message (field 1, bytes "ping"): the proxy's codec parses payloads
+			in, out := []byte{0x0a, 0x04, 'p', 'i', 'n', 'g'}, []byte(nil)
+			callErr := callers[src].Invoke(ctx, "/pkg.Svc/Do", &in, &out)
+			cancel()
+			reached := int(atomic.LoadInt64(&served) - before)
+			p4 := peer.As4()
+			run.Add("grpc/"+g.class, vh.App("CGrpc", coqEnv(g.allow, g.deny, tb, &ref), vh.HxS(authName), coqSchemes(cred), coqIP(net.IP(p4[:])),
+				vh.Bool(ref.admits(peer)), vh.N(reached), vh.Bool(callErr == nil)),
+				map[string]interface{}{"proto": "grpc", "allow": g.allow, "deny": g.deny, "auth": authName, "cred": cred.note, "caller": src,
+					"backend_calls": reached, "ok": callErr == nil, "err": fmt.Sprint(callErr), "ref_admit": ref.admits(peer)})
+		}
+		route.SetTable(route.Table{})
 	}
 
 	run.Finish(preamble, run.Scale(140, 700))
